@@ -43,9 +43,13 @@ func expected(c *c01.Cfg, rows []string, a, b int, first, last bool) string {
 		}
 	}
 	var menu []string
+	sep := ":"
+	if c.Sep != "" {
+		sep = c.Sep
+	}
 	if !c.MenuSink {
 		for _, e := range c.Menu {
-			menu = append(menu, e[0]+":"+e[1])
+			menu = append(menu, e[0]+sep+e[1])
 		}
 	}
 	if c.Browse >= 1 && !last {
@@ -53,10 +57,10 @@ func expected(c *c01.Cfg, rows []string, a, b int, first, last bool) string {
 		if c.Resolved != "" {
 			ttl = c.Resolved // the label as the resource resolves it
 		}
-		menu = append(menu, c.NextSel+":"+ttl)
+		menu = append(menu, c.NextSel+sep+ttl)
 	}
 	if c.Browse >= 2 && !first {
-		menu = append(menu, c.PrevSel+":"+c.PrevTtl)
+		menu = append(menu, c.PrevSel+sep+c.PrevTtl)
 	}
 	if len(menu) > 0 {
 		t += "\n" + join(menu, "\n")
@@ -293,6 +297,12 @@ func ByteWalk(v *vrt.Ctx) {
 	c.NextSel, c.NextTtl, c.PrevSel, c.PrevTtl = "1", "n", "2", "previous"
 	if v.Param("resolved") == 1 {
 		c.Resolved = "onward" // what the resource resolves the label "n" to
+	}
+	switch v.Param("sep") {
+	case 1:
+		c.Sep = ". " // a configured menu separator longer than the default one
+	case 2:
+		c.Sep = " - "
 	}
 	rows := c.Rows
 	base := len(expected(c, rows, 0, -1, false, false))
